@@ -2,13 +2,116 @@ import BppProofs.Lemmas.Rand
 /-!
 # C18 — random draws   (RandomTools, ContingencyTableGenerator, ContingencyTableTest, discrete rand)
 
-Property theorems only.  Every theorem quantifies over ALL results of the primitive draws.
+Property theorems only; helper lemmas are in `Lemmas/Rand.lean`.  The model (`BppModel/Rand.lean`)
+takes the results of the primitive draws as an input; every theorem quantifies over ALL of them.
+The contracts of the primitives are hypotheses where needed:
+  * an integer draw with entry `n` is `< n`            (`std::uniform_int_distribution(0, n-1)`)
+  * a uniform draw `u` with entry 1 has `0 ≤ u < 1`     (`std::uniform_real_distribution(0, 1)`)
+  * `std::shuffle` leaves a permutation.
 -/
 namespace Bpp.C18
 open Bpp Bpp.Rand
 
-/-- emptiness is reported by exception: `pickOne` on an empty vector raises, whatever the draw -/
-theorem empty_raises_pickOne {τ : Type} (replace : Bool) (pos : Nat) :
-    pickOne ([] : List τ) replace pos = .error .empty := rfl
+/-! ## picks and samples without weights -/
+
+/-- `pickOne(v, replace)`: for every admissible draw the result is an element of `v`; with
+replacement `v` is unchanged, without it exactly that one occurrence is removed -/
+theorem pickOne_spec {τ : Type} (v : List τ) (replace : Bool) (pos : Nat) (hpos : pos < v.length) :
+    ∃ e rest, pickOne v replace pos = .ok (e, rest) ∧ e ∈ v ∧
+      (replace = true → rest = v) ∧ (replace = false → v.Perm (e :: rest)) := by
+  obtain ⟨e, he, hp⟩ := pickOne_ok replace hpos
+  refine ⟨e, _, hp, List.mem_of_getElem? he, ?_, ?_⟩
+  · intro h; simp [h]
+  · intro h; simp only [h, Bool.false_eq_true, if_false]; exact swapPop_perm he
+
+/-- sampling without replacement (`std::shuffle` leaves any permutation `hat` of the positions):
+the output is an injective selection of source positions — hence a sub-multiset of the source —
+and a permutation of the source when the sizes match -/
+theorem sample_norepl_distinct {τ : Type} (vin : List τ) (k : Nat) (draws hat : List Nat)
+    (hhat : hat.Perm (List.range vin.length)) (hk : k ≤ vin.length) :
+    ∃ out idx, getSample vin k false draws hat = .ok out ∧ out.length = k ∧
+      idx.Nodup ∧ (∀ i ∈ idx, i < vin.length) ∧ List.Forall₂ (fun o i => vin[i]? = some o) out idx ∧
+      out.Subperm vin ∧ (k = vin.length → out.Perm vin) := by
+  have hnd : (hat.take k).Nodup := (List.take_sublist k hat).nodup (hhat.nodup_iff.mpr List.nodup_range)
+  have hlt : ∀ i ∈ hat.take k, i < vin.length := fun i hi =>
+    List.mem_range.mp (hhat.mem_iff.mp (List.mem_of_mem_take hi))
+  obtain ⟨out, ho, hsel⟩ := selectBy_ok hlt
+  have hlen : out.length = k := by
+    rw [hsel.length, List.length_take, hhat.length_eq, List.length_range]; omega
+  have hsub := hsel.subperm hnd hlt
+  refine ⟨out, hat.take k, ?_, hlen, hnd, hlt, hsel, hsub, ?_⟩
+  · have : ¬ vin.length < k := by omega
+    simp [getSample, this, ho]
+  · intro hkn; exact hsub.perm_of_length_le (by omega)
+
+/-- the same for the weighted `getSample(vin, w, vout, false)`: whatever the uniform draws (even
+NaN) and whatever the weights, as long as there is one weight per element -/
+theorem sample_norepl_distinct_weighted {α : Type} [Scalar α] {τ : Type} (vin : List τ) (w : List α) (k : Nat)
+    (draws : List α) (hw : w.length = vin.length) (hk : k ≤ vin.length) (hd : k ≤ draws.length) :
+    ∃ out idx, getSampleW vin w k false draws = .ok out ∧ out.length = k ∧
+      idx.Nodup ∧ (∀ i ∈ idx, i < vin.length) ∧ List.Forall₂ (fun o i => vin[i]? = some o) out idx ∧
+      out.Subperm vin ∧ (k = vin.length → out.Perm vin) := by
+  obtain ⟨ps, hps, hlen, hsub⟩ := pickPositionsNoRepl_ok k (List.range vin.length) w draws
+    (by simp [hw]) (by simpa using hk) hd
+  have hnd : ps.Nodup := subperm_nodup hsub List.nodup_range
+  have hlt : ∀ i ∈ ps, i < vin.length := fun i hi => List.mem_range.mp (hsub.subset hi)
+  obtain ⟨out, ho, hsel⟩ := selectBy_ok hlt
+  have hol : out.length = k := by rw [hsel.length, hlen]
+  have hs := hsel.subperm hnd hlt
+  refine ⟨out, ps, ?_, hol, hnd, hlt, hsel, hs, ?_⟩
+  · have : ¬ vin.length < k := by omega
+    simp [getSampleW, this, hps, ho]
+  · intro hkn; exact hs.perm_of_length_le (by omega)
+
+/-- over-long requests without replacement are refused, whatever the draws -/
+theorem sample_too_long_raises {α : Type} [Scalar α] {τ : Type} (vin : List τ) (w : List α) (k : Nat)
+    (draws hat : List Nat) (udraws : List α) (hk : vin.length < k) :
+    getSample vin k false draws hat = .error .index ∧ getSampleW vin w k false udraws = .error .index := by
+  simp [getSample, getSampleW, hk]
+
+/-- sampling with replacement returns only source elements — for every draw sequence on which
+the code returns at all — and it does return when the draws respect the primitive's contract -/
+theorem sample_repl_subset {τ : Type} (vin : List τ) (k : Nat) (draws hat : List Nat) :
+    (∀ out, getSample vin k true draws hat = .ok out → out.length = k ∧ ∀ x ∈ out, x ∈ vin) ∧
+    (k ≤ draws.length → (∀ d ∈ draws, d < vin.length) → ∃ out, getSample vin k true draws hat = .ok out) := by
+  constructor
+  · intro out h
+    simp only [getSample, Bool.not_true, Bool.and_false, Bool.false_eq_true, if_false, if_true] at h
+    exact sampleRepl_mem k draws out h
+  · intro hk hd
+    obtain ⟨out, ho, _, _⟩ := sampleRepl_ok (vin := vin) k draws hk hd
+    exact ⟨out, by simp [getSample, ho]⟩
+
+/-- emptiness is reported by exception, whatever the draws: every pick on an empty vector and
+every non-empty sample with replacement from an empty vector raises `EmptyVectorException`
+(`pickFromCumSum` only after `fix:` 57b79ce — see `pickFromCumSum_unrepaired_witness`) -/
+theorem empty_raises {α : Type} [Scalar α] {τ : Type} (replace : Bool) (pos k : Nat) (draws hat : List Nat)
+    (w : List α) (u : α) (us : List α) :
+    pickOne ([] : List τ) replace pos = .error .empty ∧
+    pickOneConst ([] : List τ) pos = .error .empty ∧
+    pickOneW ([] : List τ) w replace u = .error .empty ∧
+    pickOneWConst ([] : List τ) w u = .error .empty ∧
+    getSample ([] : List τ) (k + 1) true draws hat = .error .empty ∧
+    getSampleW ([] : List τ) w (k + 1) true us = .error .empty ∧
+    pickFromCumSum ([] : List α) u = .error .empty := by
+  refine ⟨rfl, rfl, rfl, rfl, ?_, ?_, rfl⟩
+  · simp [getSample, sampleRepl]
+  · simp [getSampleW, sampleWRepl]
+
+/-- … and only emptiness: on a non-empty vector no admissible draw raises -/
+theorem nonempty_no_raise {τ : Type} (v : List τ) (hv : v ≠ []) (replace : Bool) (pos : Nat) (hpos : pos < v.length) :
+    (∃ r, pickOne v replace pos = .ok r) ∧ (∃ r, pickOneConst v pos = .ok r) := by
+  obtain ⟨e, _, hp⟩ := pickOne_ok replace hpos
+  exact ⟨⟨_, hp⟩, ⟨_, pickOneConst_ok hpos⟩⟩
+
+/-- before `fix:` 57b79ce `pickFromCumSum` of an empty vector read `w[0]` (segfault on the real code,
+corpus/C18/cumsum-empty.txt) instead of raising -/
+theorem pickFromCumSum_unrepaired_witness :
+    pickFromCumSumUnrepaired ([] : List Rat) 0 = .error .ub := rfl
+
+/-! non-vacuity -/
+example : getSample [10, 20, 30] 2 false [] [2, 0, 1] = .ok [30, 10] := rfl
+example : getSample [10, 20, 30] 4 true [0, 2, 2, 1] [] = .ok [10, 30, 30, 20] := rfl
+example : pickOne [1, 2, 3, 4] false 1 = .ok (2, [1, 4, 3]) := rfl
 
 end Bpp.C18
